@@ -12,6 +12,8 @@ use bugstalker::debugger::Debugger;
 use nix::unistd::Pid;
 use serde_json::{json, Value};
 use vharness::dbg::{self, stop_json, Output, Recorder};
+#[allow(unused_imports)]
+use std::io::Read as _;
 use vharness::probe::{self, Elf};
 use vharness::{catch, read_json, NdjsonOut};
 
@@ -28,12 +30,43 @@ struct Ctx {
     src_name: String,
 }
 
+static ATTACHED_BIAS: std::sync::atomic::AtomicU64 = std::sync::atomic::AtomicU64::new(u64::MAX);
+
 fn bias(elf: &Elf) -> u64 {
+    let a = ATTACHED_BIAS.load(std::sync::atomic::Ordering::Relaxed);
+    if a != u64::MAX {
+        return a;
+    }
     if elf.is_pie {
         PIE_BIAS
     } else {
         0
     }
+}
+
+/// u_debugreg[7] of every task, read through an independent PTRACE_SEIZE (only valid once the
+/// debugger has released the process).  Returns tid -> dr7, or an error string.
+fn independent_dr7(pid: i32) -> Value {
+    use nix::sys::ptrace;
+    use nix::sys::wait::waitpid;
+    let mut o = serde_json::Map::new();
+    for (tid, _) in probe::task_states(pid) {
+        let t = Pid::from_raw(tid);
+        let r: Result<i64, String> = (|| {
+            ptrace::seize(t, ptrace::Options::empty()).map_err(|e| format!("seize: {e}"))?;
+            ptrace::interrupt(t).map_err(|e| format!("interrupt: {e}"))?;
+            waitpid(t, Some(nix::sys::wait::WaitPidFlag::__WALL)).map_err(|e| format!("wait: {e}"))?;
+            let off = 848 + 7 * 8; // offsetof(struct user, u_debugreg) on x86-64 = 848
+            let v = unsafe { libc::ptrace(libc::PTRACE_PEEKUSER, tid, off as *mut libc::c_void, 0) };
+            let _ = ptrace::detach(t, None);
+            Ok(v)
+        })();
+        match r {
+            Ok(v) => o.insert(tid.to_string(), json!(v)),
+            Err(e) => o.insert(tid.to_string(), json!(e)),
+        };
+    }
+    Value::Object(o)
 }
 
 /// rip of a ptrace-stopped task as the kernel reports it in /proc/<pid>/task/<tid>/syscall
@@ -88,6 +121,7 @@ fn observe(cx: &Ctx) -> Value {
     }
     let loc = d.ecx().location();
     o.insert("ecx_pc".into(), json!(u64::from(loc.pc).wrapping_sub(b)));
+    o.insert("rip_bias".into(), json!(b));
     o.insert("frame_num".into(), json!(d.ecx().frame_num()));
     if let Some(pc) = proc_pc(cx.pid, tid) {
         o.insert("rip".into(), json!(pc.wrapping_sub(b)));
@@ -244,6 +278,31 @@ fn run_cmd(cx: &mut Ctx, c: &Value) -> Value {
             .map_err(|e| e.to_string()),
         "restart" => d.restart_debugee().map(|p| json!({"pid": p.as_raw()})).map_err(|e| e.to_string()),
         "detach" => d.detach().map(|_| Value::Null).map_err(|e| e.to_string()),
+        "noop" => Ok(Value::Null),
+        "watch_addr" => {
+            use bugstalker::debugger::register::debug::{BreakCondition, BreakSize};
+            let sz = match c["size"].as_u64().unwrap_or(8) {
+                1 => BreakSize::Bytes1,
+                2 => BreakSize::Bytes2,
+                4 => BreakSize::Bytes4,
+                _ => BreakSize::Bytes8,
+            };
+            d.set_watchpoint_on_memory(reloc(c["addr"].as_u64().unwrap()), sz, BreakCondition::DataWrites, false)
+                .map(|v| json!({"num": v.number}))
+                .map_err(|e| e.to_string())
+        }
+        // keep continuing (through any remaining breakpoints) until the program has exited
+        "run_to_exit" => {
+            let mut n = 0;
+            loop {
+                match d.continue_debugee_with_reason() {
+                    Ok(bugstalker::debugger::StopReason::DebugeeExit(c)) => break Ok(json!({"kind": "exit", "code": c, "continues": n})),
+                    Ok(_) if n < 500 => n += 1,
+                    Ok(r) => break Ok(json!({"kind": "gave_up", "last": stop_json(&r)})),
+                    Err(e) => break Err(e.to_string()),
+                }
+            }
+        }
         other => Err(format!("unknown command {other}")),
     });
     match r {
@@ -261,13 +320,70 @@ fn main() {
     let script = read_json(&argv[2]);
     let mut out = NdjsonOut::create(&argv[3]);
     let elf = Elf::load(&argv[1]);
+    #[allow(unused_assignments)]
     let args: Vec<String> = script["args"]
         .as_array()
         .map(|a| a.iter().map(|x| x.as_str().unwrap_or("").to_string()).collect())
         .unwrap_or_default();
     // a panic inside the debugger must not take the hook output with it
     std::panic::set_hook(Box::new(|_| {}));
-    let (d, rec, outp, pid) = dbg::launch(&argv[1], &args);
+    let attach = script["attach"].as_bool().unwrap_or(false);
+    let mut ext_child: Option<std::process::Child> = None;
+    let (d, rec, outp, pid) = if attach {
+        // start the puppet natively (real ASLR); it waits in a pre-main gate (PUPPET_WAIT) for one byte on stdin
+        dbg::init();
+        let mut ch = std::process::Command::new(&argv[1])
+            .args(&args)
+            .env("PUPPET_WAIT", "1")
+            .stdin(std::process::Stdio::piped())
+            .stdout(std::process::Stdio::piped())
+            .stderr(std::process::Stdio::piped())
+            .spawn()
+            .unwrap_or_else(|e| vharness::tool_error(&format!("spawn {}: {e}", argv[1])));
+        let pid = Pid::from_raw(ch.id() as i32);
+        // wait until it sits in the gate: read(0, ..) shows up as "0 0x0 ..." in /proc/<pid>/syscall
+        for _ in 0..500 {
+            let sc = std::fs::read_to_string(format!("/proc/{}/syscall", pid.as_raw())).unwrap_or_default();
+            if sc.starts_with("0 0x0 ") {
+                break;
+            }
+            std::thread::sleep(std::time::Duration::from_millis(10));
+        }
+        let outp = Output::default();
+        {
+            use std::io::Read;
+            let mut so = ch.stdout.take().unwrap();
+            let buf = outp.stdout.clone();
+            std::thread::spawn(move || {
+                let mut b = [0u8; 4096];
+                while let Ok(n) = so.read(&mut b) {
+                    if n == 0 {
+                        break;
+                    }
+                    buf.lock().unwrap().extend_from_slice(&b[..n]);
+                }
+            });
+        }
+        ATTACHED_BIAS.store(probe::load_bias(pid.as_raw(), &elf), std::sync::atomic::Ordering::Relaxed);
+        let rec = Recorder::default();
+        let (_r, w1) = os_pipe::pipe().unwrap();
+        let (_r2, w2) = os_pipe::pipe().unwrap();
+        let d = bugstalker::debugger::DebuggerBuilder::new()
+            .with_hooks(rec.clone())
+            .build_attached(pid, w1, w2)
+            .unwrap_or_else(|e| vharness::tool_error(&format!("attach: {e}")));
+        // open the gate: the byte is read once the debugger lets the process run (stdin stays open:
+        // the puppet waits once more before its final report so that it can be inspected after release)
+        {
+            use std::io::Write;
+            let _ = ch.stdin.as_mut().unwrap().write_all(b"g");
+            let _ = ch.stdin.as_mut().unwrap().flush();
+        }
+        ext_child = Some(ch);
+        (d, rec, outp, pid)
+    } else {
+        dbg::launch(&argv[1], &args)
+    };
     let mut cx = Ctx {
         dbg: Some(d),
         rec,
@@ -310,6 +426,55 @@ fn main() {
             unsafe { libc::kill(cx.pid, libc::SIGKILL) };
             break;
         }
+    }
+    // attached process released (detach / drop): look at it independently and let it finish
+    if attach {
+        if let Some(d) = cx.dbg.take() {
+            let r = catch(move || drop(d));
+            out.emit(&json!({"ev": "teardown", "ok": r.is_ok(), "panic": r.err(), "proc_state": probe::process_state(cx.pid)}));
+        }
+        // the released process runs on and then waits in its second gate (before the final report)
+        for _ in 0..300 {
+            let sc = std::fs::read_to_string(format!("/proc/{}/syscall", cx.pid)).unwrap_or_default();
+            if sc.starts_with("0 0x0 ") || probe::process_state(cx.pid).map(|s| s == "Z").unwrap_or(true) {
+                break;
+            }
+            std::thread::sleep(std::time::Duration::from_millis(10));
+        }
+        let st = probe::process_state(cx.pid);
+        let tasks = probe::task_states_json(cx.pid);
+        let patched = probe::patched_text(cx.pid, &cx.elf);
+        let dr7 = if st.is_some() { independent_dr7(cx.pid) } else { Value::Null };
+        let mut code = None;
+        if let Some(mut ch) = ext_child.take() {
+            {
+                use std::io::Write;
+                if let Some(si) = ch.stdin.as_mut() {
+                    let _ = si.write_all(b"g");
+                    let _ = si.flush();
+                }
+            }
+            drop(ch.stdin.take());
+            // give it time to finish natively
+            for _ in 0..100 {
+                match ch.try_wait() {
+                    Ok(Some(s)) => {
+                        code = s.code();
+                        break;
+                    }
+                    _ => std::thread::sleep(std::time::Duration::from_millis(50)),
+                }
+            }
+            if code.is_none() {
+                let _ = ch.kill();
+                let _ = ch.wait();
+            }
+        }
+        std::thread::sleep(std::time::Duration::from_millis(30));
+        out.emit(&json!({"ev": "released", "proc_state": st, "tasks": tasks, "patched": patched, "dr7": dr7,
+            "exit_code": code, "stdout": cx.out.stdout_string()}));
+        out.emit(&json!({"ev": "end", "stdout": cx.out.stdout_string(), "stderr": cx.out.stderr_string()}));
+        return;
     }
     // teardown: drop the debugger (this is itself part of C11's observations)
     if let Some(d) = cx.dbg.take() {
